@@ -405,6 +405,10 @@ func checkMain(args []string) int {
 	replayed := map[int]*replayResult{}
 	replayErr := map[string]string{}
 	raceIDs := map[int]bool{}
+	candIDs := map[int]bool{}
+	for _, c := range cands {
+		candIDs[c.id] = true
+	}
 	if !*noReplay && (len(cands) > 0 || len(traces) > 0) {
 		byPkg := map[string][]replayCase{}
 		for _, c := range cands {
@@ -442,7 +446,7 @@ func checkMain(args []string) int {
 					if len(set) == 0 {
 						continue
 					}
-					rr, err := nativeReplay(*repo, scratch, pkg, pkgName(pkg), intrFile[pkg], pkgFiles[pkg], fns, pkgSetups[pkg], set, pass == 1)
+					rr, err := nativeReplay(*repo, scratch, pkg, pkgName(pkg), intrFile[pkg], pkgFiles[pkg], fns, pkgSetups[pkg], set, []string{"", "race"}[pass])
 					mu.Lock()
 					if err != nil {
 						replayErr[pkg] = err.Error()
@@ -451,6 +455,29 @@ func checkMain(args []string) int {
 						replayed[id] = r
 					}
 					mu.Unlock()
+					if pass == 0 {
+						// schedule-dependent counterexamples that the small instance did not
+						// reproduce get a second attempt with the rows amplified
+						var again []replayCase
+						for _, c := range set {
+							if !candIDs[c.ID] || !schedDependent(c.Model) {
+								continue
+							}
+							if r := rr[c.ID]; r != nil && r.began && r.ended && len(r.fails) == 0 && r.panicMsg == "" && !r.assumeFailed && len(again) < 6 {
+								again = append(again, c)
+							}
+						}
+						if len(again) > 0 {
+							rr2, _ := nativeReplay(*repo, scratch, pkg, pkgName(pkg), intrFile[pkg], pkgFiles[pkg], fns, pkgSetups[pkg], again, "amplify")
+							mu.Lock()
+							for id, r := range rr2 {
+								if r != nil && (len(r.fails) > 0 || r.panicMsg != "" || !r.ended) {
+									replayed[id] = r
+								}
+							}
+							mu.Unlock()
+						}
+					}
 				}
 			}(pkg, cases)
 		}
@@ -661,10 +688,14 @@ func parseCommon(path string) (commonSpec, error) {
 	return cs, nil
 }
 
-func nativeReplay(repo, scratch, pkg, pkgName, intr string, harnessFiles, fns, setups []string, cases []replayCase, race bool) (map[int]*replayResult, error) {
+// nativeReplay modes: "" = the recorded inputs as they are; "race" = built with -race, rows
+// amplified (verifAmplify); "amplify" = rows amplified without the race detector (second attempt at
+// schedule-dependent counterexamples that the small instance did not reproduce).
+func nativeReplay(repo, scratch, pkg, pkgName, intr string, harnessFiles, fns, setups []string, cases []replayCase, mode string) (map[int]*replayResult, error) {
+	race := mode == "race"
 	tag := strings.ReplaceAll(pkg, "/", "_")
-	if race {
-		tag += "_race"
+	if mode != "" {
+		tag += "_" + mode
 	}
 	var b strings.Builder
 	fmt.Fprintf(&b, "package %s\n\nimport (\n\t\"encoding/json\"\n\t\"fmt\"\n\t\"os\"\n\t\"strconv\"\n\t\"strings\"\n\t\"testing\"\n)\n\n", pkgName)
@@ -706,7 +737,7 @@ func nativeReplay(repo, scratch, pkg, pkgName, intr string, harnessFiles, fns, s
 			tries = n
 		}
 		for k := range c.Model {
-			if strings.HasPrefix(k, "maporder") || strings.HasPrefix(k, "sched") || strings.HasPrefix(k, "select") {
+			if (strings.HasPrefix(k, "maporder") || strings.HasPrefix(k, "sched") || strings.HasPrefix(k, "select")) && tries < 60 {
 				tries = 60
 			}
 		}
@@ -786,6 +817,9 @@ func nativeReplay(repo, scratch, pkg, pkgName, intr string, harnessFiles, fns, s
 			cmd.Env = append(cmd.Env, "GORACE=halt_on_error=1")
 			cmd.Env = append(cmd.Env, "VERIF_REPLAY_TRIES=40", "VERIF_AMPLIFY=64")
 		}
+		if mode == "amplify" {
+			cmd.Env = append(cmd.Env, "VERIF_AMPLIFY=128", "VERIF_REPLAY_TRIES=500")
+		}
 		out, _ := cmd.CombinedOutput()
 		return string(out)
 	}
@@ -849,6 +883,15 @@ func nativeReplay(repo, scratch, pkg, pkgName, intr string, harnessFiles, fns, s
 	}
 	os.Remove(bin)
 	return res, nil
+}
+
+func schedDependent(m map[string]string) bool {
+	for k := range m {
+		if strings.HasPrefix(k, "sched") || strings.HasPrefix(k, "select") {
+			return true
+		}
+	}
+	return false
 }
 
 // inputSignature: the harness-level inputs of a model (everything but scheduling, map-order,
